@@ -9,5 +9,7 @@ S = {s['id']: s for s in SPECS}
 
 def run(rep, ctx):
     g = ctx.g
+    from .c01 import run_N_writer
+    run_N_writer(rep, g, ['write::cfi::'])
     run_specs(rep, ctx, 'C14')
     k1_pairing(rep, g, 'K1-cfa', S['w_cfi_instr'], [S['cfi_instr_parse']], 'DW_CFA_')
